@@ -40,6 +40,12 @@ func (m *Model) delete() {
 }
 
 func (m *Model) addFund(address types.Address, pubkey *types.Pubkey, candidateID uint32, coin types.CoinID, value *big.Int, moveToCandidateID uint32) {
+	if pubkey != nil {
+		// callers pass the address of a candidate's key field: keep the key as it is now, not whatever the candidate
+		// changes it to later (the record on disk holds the value, a reloaded node would differ from a running one)
+		key := *pubkey
+		pubkey = &key
+	}
 	m.lock.Lock()
 	var moveToCandidate []uint32
 	if moveToCandidateID != 0 {
